@@ -1,4 +1,5 @@
-/- Model/C11Gen.lean — the C11 model instantiated with the facts the translator extracted. -/
+/- Model/C11Gen.lean — the C11 model instantiated with the facts the translator extracted, and the statement lists
+   the hand transcription in Model/C11.lean was made from (`shapesExpected`). -/
 import PsutilModel.Model.C11
 import PsutilModel.Generated.C11
 namespace Psutil.C11
@@ -12,6 +13,39 @@ def inetV6TryShape : List String :=
   ["laddr = NetConnections.decode_address(laddr, family)", "raddr = NetConnections.decode_address(raddr, family)",
    "except _Ipv6UnsupportedError", "continue"]
 
+/-- get_all_inodes keeps the holders of every process: `setdefault(inode, []).extend(pairs)` per inode -/
+def mergeExtendShape : List String :=
+  ["for (inode, pairs) in self.get_proc_inodes(pid).items():", "  inodes.setdefault(inode, []).extend(pairs)"]
+
+/-- process_unix: the path is everything after `"<inode> "` -/
+def pathRestExpr : String := "line.split(None, 6)[6].rstrip('\\n').partition(' ')[2]"
+
+/-! ### the four `inet_ntop` calls of decode_address (fact `ntopCalls`: tests above the call ↦ second argument) -/
+
+def kV4LE : String := "family == socket.AF_INET & LITTLE_ENDIAN"
+def kV4BE : String := "family == socket.AF_INET & not LITTLE_ENDIAN"
+def kV6LE : String := "not family == socket.AF_INET & LITTLE_ENDIAN"
+def kV6BE : String := "not family == socket.AF_INET & not LITTLE_ENDIAN"
+
+def ntopArg (k : String) : String := (Gen.C11.ntopCalls.lookup k).getD ""
+
+/-- the decoded four bytes reversed / as they are -/
+def argRev : String := "base64.b16decode(ip)[::-1]"
+def argPlain : String := "base64.b16decode(ip)"
+/-- every 32-bit word byte-swapped (read little-endian, written big-endian or the other way round) -/
+def argSwaps : List String :=
+  ["struct.pack('>4I', *struct.unpack('<4I', ip))", "struct.pack('<4I', *struct.unpack('>4I', ip))"]
+/-- the sixteen bytes as they are (read and written with the same byte order) -/
+def argIds : List String :=
+  ["struct.pack('<4I', *struct.unpack('<4I', ip))", "struct.pack('>4I', *struct.unpack('>4I', ip))", "ip"]
+
+/-- the calls sit under exactly the four tests, and every argument is an expression the model's flags can express -/
+def ntopKnownNow : Bool :=
+  Gen.C11.ntopCalls.map (·.1) == [kV4LE, kV4BE, kV6LE, kV6BE]
+  && [kV4LE, kV4BE].all (fun k => ntopArg k == argRev || ntopArg k == argPlain)
+  && [kV6LE, kV6BE].all (fun k => argSwaps.contains (ntopArg k) || argIds.contains (ntopArg k))
+
+
 /-- configuration of the model as extracted from the current source -/
 def cfg : Cfg :=
   { littleEndian := Gen.C11.littleEndian
@@ -23,13 +57,18 @@ def cfg : Cfg :=
     connNone := Gen.C11.connNone
     tmap := Gen.C11.tmap
     connKinds := Gen.C11.connTmap.map (·.1)
-    inodesExtend := Gen.C11.inodesExtend
-    unixPathRest := Gen.C11.unixPathRest
+    inodesExtend := Gen.C11.mergeStmts == mergeExtendShape
+    unixPathRest := Gen.C11.unixPathExpr == pathRestExpr
     linkSkipClasses := Gen.C11.linkSkipClasses
     linkSkipErrnos := Gen.C11.linkSkipErrnos
     allSkipClasses := Gen.C11.allSkipClasses
     v6RaiseUnsupported := Gen.C11.decodeV6Handler == decodeV6HandlerShape
     v6SkipLine := Gen.C11.inetV6Try == inetV6TryShape
+    v4RevLE := ntopArg kV4LE == argRev
+    v4RevBE := ntopArg kV4BE == argRev
+    v6SwapLE := argSwaps.contains (ntopArg kV6LE)
+    v6SwapBE := argSwaps.contains (ntopArg kV6BE)
+    ntopKnown := ntopKnownNow
     inetN := Gen.C11.inetIdx.getD 0 0
     iLaddr := Gen.C11.inetIdx.getD 1 0
     iRaddr := Gen.C11.inetIdx.getD 2 0
@@ -38,5 +77,227 @@ def cfg : Cfg :=
     unixN := Gen.C11.unixIdx.getD 0 0
     uType := Gen.C11.unixIdx.getD 1 0
     uInode := Gen.C11.unixIdx.getD 2 0 }
+
+/-! ### statement lists of the transcribed functions
+
+  `Model/C11.lean` is a hand transcription of these statements (docstrings and comments are not code). The translator
+  re-extracts each list on every run (`Gen.C11.shape…`); `cfg_shapes_good` (Props) requires them to be what is written
+  here, so an edit of `decode_address`, of the inode parsing in `get_proc_inodes`, of `inodes[inode][0]`, of a
+  `filter_pid` test, of the `if pid:` in `retrieve`, of `_check_conn_kind` or of one of its call sites, of the `readlink`
+  wrapper … breaks a theorem even when the finer-grained facts above do not see it. -/
+
+def expectedShapeDecodeAddress : List String :=
+  ["@staticmethod",
+   "def decode_address(addr, family):",
+   "  ip, port = addr.split(':')",
+   "  port = int(port, 16)",
+   "  if not port:",
+   "    return ()",
+   "  ip = ip.encode('ascii')",
+   "  if family == socket.AF_INET:",
+   "    if LITTLE_ENDIAN:",
+   "      ip = socket.inet_ntop(family, base64.b16decode(ip)[::-1])",
+   "    else:",
+   "      ip = socket.inet_ntop(family, base64.b16decode(ip))",
+   "  else:",
+   "    ip = base64.b16decode(ip)",
+   "    try:",
+   "      if LITTLE_ENDIAN:",
+   "        ip = socket.inet_ntop(socket.AF_INET6, struct.pack('>4I', *struct.unpack('<4I', ip)))",
+   "      else:",
+   "        ip = socket.inet_ntop(socket.AF_INET6, struct.pack('<4I', *struct.unpack('<4I', ip)))",
+   "    except ValueError:",
+   "      if not supports_ipv6():",
+   "        raise _Ipv6UnsupportedError from None",
+   "      raise",
+   "  return _common.addr(ip, port)"]
+
+def expectedShapeGetProcInodes : List String :=
+  ["def get_proc_inodes(self, pid):",
+   "  inodes = defaultdict(list)",
+   "  for fd in os.listdir(f'{self._procfs_path}/{pid}/fd'):",
+   "    try:",
+   "      inode = readlink(f'{self._procfs_path}/{pid}/fd/{fd}')",
+   "    except (FileNotFoundError, ProcessLookupError):",
+   "      continue",
+   "    except OSError as err:",
+   "      if err.errno == errno.EINVAL:",
+   "        continue",
+   "      if err.errno == errno.ENAMETOOLONG:",
+   "        debug(err)",
+   "        continue",
+   "      raise",
+   "    else:",
+   "      if inode.startswith('socket:['):",
+   "        inode = inode[8:][:-1]",
+   "        inodes[inode].append((pid, int(fd)))",
+   "  return inodes"]
+
+def expectedShapeGetAllInodes : List String :=
+  ["def get_all_inodes(self):",
+   "  inodes = {}",
+   "  for pid in pids():",
+   "    try:",
+   "      for (inode, pairs) in self.get_proc_inodes(pid).items():",
+   "        inodes.setdefault(inode, []).extend(pairs)",
+   "    except (FileNotFoundError, ProcessLookupError, PermissionError):",
+   "      continue",
+   "  return inodes"]
+
+def expectedShapeProcessInet : List String :=
+  ["@staticmethod",
+   "def process_inet(file, family, type_, inodes, filter_pid=None):",
+   "  if file.endswith('6') and (not os.path.exists(file)):",
+   "    return",
+   "  with open_text(file) as f:",
+   "    f.readline()",
+   "    for (lineno, line) in enumerate(f, 1):",
+   "      try:",
+   "        _, laddr, raddr, status, _, _, _, _, _, inode = line.split()[:10]",
+   "      except ValueError:",
+   "        msg = f'error while parsing {file}; malformed line {lineno} {line!r}'",
+   "        raise RuntimeError(msg) from None",
+   "      if inode in inodes:",
+   "        pid, fd = inodes[inode][0]",
+   "      else:",
+   "        pid, fd = (None, -1)",
+   "      if filter_pid is not None and filter_pid != pid:",
+   "        continue",
+   "      else:",
+   "        if type_ == socket.SOCK_STREAM:",
+   "          status = TCP_STATUSES[status]",
+   "        else:",
+   "          status = _common.CONN_NONE",
+   "        try:",
+   "          laddr = NetConnections.decode_address(laddr, family)",
+   "          raddr = NetConnections.decode_address(raddr, family)",
+   "        except _Ipv6UnsupportedError:",
+   "          continue",
+   "        yield (fd, family, type_, laddr, raddr, status, pid)"]
+
+def expectedShapeProcessUnix : List String :=
+  ["@staticmethod",
+   "def process_unix(file, family, inodes, filter_pid=None):",
+   "  with open_text(file) as f:",
+   "    f.readline()",
+   "    for line in f:",
+   "      tokens = line.split()",
+   "      try:",
+   "        _, _, _, _, type_, _, inode = tokens[0:7]",
+   "      except ValueError:",
+   "        if ' ' not in line:",
+   "          continue",
+   "        msg = f'error while parsing {file}; malformed line {line!r}'",
+   "        raise RuntimeError(msg)",
+   "      if inode in inodes:",
+   "        pairs = inodes[inode]",
+   "      else:",
+   "        pairs = [(None, -1)]",
+   "      for (pid, fd) in pairs:",
+   "        if filter_pid is not None and filter_pid != pid:",
+   "          continue",
+   "        else:",
+   "          path = line.split(None, 6)[6].rstrip('\\n').partition(' ')[2]",
+   "          type_ = _common.socktype_to_enum(int(type_))",
+   "          raddr = ''",
+   "          status = _common.CONN_NONE",
+   "          yield (fd, family, type_, path, raddr, status, pid)"]
+
+def expectedShapeRetrieve : List String :=
+  ["def retrieve(self, kind, pid=None):",
+   "  self._procfs_path = get_procfs_path()",
+   "  if pid is not None:",
+   "    inodes = self.get_proc_inodes(pid)",
+   "    if not inodes:",
+   "      return []",
+   "  else:",
+   "    inodes = self.get_all_inodes()",
+   "  ret = set()",
+   "  for (proto_name, family, type_) in self.tmap[kind]:",
+   "    path = f'{self._procfs_path}/net/{proto_name}'",
+   "    if family in {socket.AF_INET, socket.AF_INET6}:",
+   "      ls = self.process_inet(path, family, type_, inodes, filter_pid=pid)",
+   "    else:",
+   "      ls = self.process_unix(path, family, inodes, filter_pid=pid)",
+   "    for (fd, family, type_, laddr, raddr, status, bound_pid) in ls:",
+   "      if pid:",
+   "        conn = _common.pconn(fd, family, type_, laddr, raddr, status)",
+   "      else:",
+   "        conn = _common.sconn(fd, family, type_, laddr, raddr, status, bound_pid)",
+   "      ret.add(conn)",
+   "  return list(ret)"]
+
+def expectedShapeLinuxSys : List String :=
+  ["def net_connections(kind='inet'):",
+   "  return _net_connections.retrieve(kind)"]
+
+def expectedShapeLinuxProc : List String :=
+  ["@wrap_exceptions",
+   "def net_connections(self, kind='inet'):",
+   "  ret = _net_connections.retrieve(kind, self.pid)",
+   "  self._raise_if_not_alive()",
+   "  return ret"]
+
+def expectedShapeReadlink : List String :=
+  ["def readlink(path):",
+   "  assert isinstance(path, str), path",
+   "  path = os.readlink(path)",
+   "  path = path.split('\\x00')[0]",
+   "  if path.endswith(' (deleted)') and (not path_exists_strict(path)):",
+   "    path = path[:-10]",
+   "  return path"]
+
+def expectedShapeCheckKind : List String :=
+  ["def _check_conn_kind(kind):",
+   "  kinds = tuple(_common.conn_tmap)",
+   "  if kind not in kinds:",
+   "    msg = f'invalid kind argument {kind!r}; valid ones are: {kinds}'",
+   "    raise ValueError(msg)"]
+
+def expectedShapeFrontSys : List String :=
+  ["def net_connections(kind='inet'):",
+   "  _check_conn_kind(kind)",
+   "  return _psplatform.net_connections(kind)"]
+
+def expectedShapeFrontProc : List String :=
+  ["def net_connections(self, kind='inet'):",
+   "  _check_conn_kind(kind)",
+   "  return self._proc.net_connections(kind)"]
+
+def expectedShapeFrontAlias : List String :=
+  ["@_common.deprecated_method(replacement='net_connections')",
+   "def connections(self, kind='inet'):",
+   "  return self.net_connections(kind=kind)"]
+
+/-- (function, statement list now, statement list the model was transcribed from) -/
+def shapesNow : List (String × List String) :=
+  [("shapeDecodeAddress", Gen.C11.shapeDecodeAddress),
+   ("shapeGetProcInodes", Gen.C11.shapeGetProcInodes),
+   ("shapeGetAllInodes", Gen.C11.shapeGetAllInodes),
+   ("shapeProcessInet", Gen.C11.shapeProcessInet),
+   ("shapeProcessUnix", Gen.C11.shapeProcessUnix),
+   ("shapeRetrieve", Gen.C11.shapeRetrieve),
+   ("shapeLinuxSys", Gen.C11.shapeLinuxSys),
+   ("shapeLinuxProc", Gen.C11.shapeLinuxProc),
+   ("shapeReadlink", Gen.C11.shapeReadlink),
+   ("shapeCheckKind", Gen.C11.shapeCheckKind),
+   ("shapeFrontSys", Gen.C11.shapeFrontSys),
+   ("shapeFrontProc", Gen.C11.shapeFrontProc),
+   ("shapeFrontAlias", Gen.C11.shapeFrontAlias)]
+
+def shapesExpected : List (String × List String) :=
+  [("shapeDecodeAddress", expectedShapeDecodeAddress),
+   ("shapeGetProcInodes", expectedShapeGetProcInodes),
+   ("shapeGetAllInodes", expectedShapeGetAllInodes),
+   ("shapeProcessInet", expectedShapeProcessInet),
+   ("shapeProcessUnix", expectedShapeProcessUnix),
+   ("shapeRetrieve", expectedShapeRetrieve),
+   ("shapeLinuxSys", expectedShapeLinuxSys),
+   ("shapeLinuxProc", expectedShapeLinuxProc),
+   ("shapeReadlink", expectedShapeReadlink),
+   ("shapeCheckKind", expectedShapeCheckKind),
+   ("shapeFrontSys", expectedShapeFrontSys),
+   ("shapeFrontProc", expectedShapeFrontProc),
+   ("shapeFrontAlias", expectedShapeFrontAlias)]
 
 end Psutil.C11
